@@ -22,3 +22,8 @@ claim("C20", "static analysis: SSA value-identity ordering, min/max linear-form 
   "Decides that every return of Subscriber.poll yields NextInstance(after) − NextInstance(before) in that order, that the predictor is fed only that progress, that the timer extension is ≤ delay/2 and ≤ the request time, that predictor.update's full decision table over (back-off, progress 0/1/2/≥3) equals the specification with clamps, and that CatchUp's progress is latest+1 − NextInstance(before) (C20.R1–R4). Structural necessary conditions; convergence of the cadence over time is dynamics and is not decided.",
   "Trusts go/types, go/ssa, checker/lin.go, checker/sccp.go and the table in checker/c20.go.",
   "DESIGN.md §4 C20")
+
+claim("C05", "static analysis: guard dominance + full decision-table extraction by SCCP, SSA map-literal table comparison, cache-key provenance on the validator",
+  "Decides on every path of gpbft/validator.go that acceptance and cache insertion are unreachable when any check fails; that the complete phase × round × bottom × partial × ticket × justification decision table (512 rows) and the relevance table (240 rows) equal the protocol tables; that the justification expectation table equals the spec and each of its guards (incl. round equality in both directions) gates aggregate acceptance; that the aggregate is checked against a strong quorum of the same committee over the payload with the expected key; and history independence: cache keys cover the whole message / the justification plus the very key verified, namespaces distinct, lookups read-only, progress never read under cached validation (C05.R1–R8). Structural necessary conditions; cryptographic soundness and races are not decided.",
+  "AS2 cryptography sound; trusts go/types, go/ssa, checker/sccp.go and the spec tables in checker/c05.go.",
+  "DESIGN.md §4 C05")
